@@ -738,11 +738,18 @@ func (g *SummaryGraph) addCallArgEdge(mark MarkWithAccessPath, cond *ConditionIn
 	}
 
 	for _, callNode := range callNodes {
-		callNodeArg := callNode.FindArg(arg)
-		if callNodeArg == nil {
+		// The same ssa value may be passed at several positions of the call, e.g. f(x, x): every argument node
+		// for that value must receive the edge, not only the first one.
+		found := false
+		for _, callNodeArg := range callNode.args {
+			if callNodeArg.ssaValue == arg {
+				found = true
+				g.addEdge(mark, callNodeArg, cond)
+			}
+		}
+		if !found {
 			panic("attempting to set call arg edge but no call arg node")
 		}
-		g.addEdge(mark, callNodeArg, cond)
 	}
 }
 
